@@ -645,6 +645,7 @@ fn e2_create_vs_remove(tier: Tier, which: u64, ctx: &mut Ctx) {
 		horizon: 3000,
 		max_spin_rounds: 8,
 		record_sites: true,
+		..Default::default()
 	};
 	#[derive(Debug, Clone, Default, PartialEq)]
 	struct Obs {
